@@ -118,6 +118,98 @@ type Block struct {
 	Txs Txs `json:"transactions"`
 }
 
+func cloneBytes(b Bytes) Bytes {
+	if b == nil {
+		return nil
+	}
+	return append(Bytes{}, b...)
+}
+
+// Returns blocks that share no memory with the supplied ones.
+// Used to hand out cached blocks: callers attach their own logs,
+// receipts and traces to what they receive.
+func CopyBlocks(blocks []Block) []Block {
+	res := make([]Block, len(blocks))
+	for i := range blocks {
+		src, dst := &blocks[i], &res[i]
+		dst.Header = Header{
+			Number:    src.Header.Number,
+			Hash:      cloneBytes(src.Header.Hash),
+			Parent:    cloneBytes(src.Header.Parent),
+			LogsBloom: cloneBytes(src.Header.LogsBloom),
+			Time:      src.Header.Time,
+		}
+		if src.Txs == nil {
+			continue
+		}
+		dst.Txs = make(Txs, len(src.Txs))
+		for j := range src.Txs {
+			src.Txs[j].copyTo(&dst.Txs[j])
+		}
+	}
+	return res
+}
+
+func (tx *Tx) copyTo(dst *Tx) {
+	dst.Receipt = Receipt{
+		Status:            tx.Receipt.Status,
+		GasUsed:           tx.Receipt.GasUsed,
+		EffectiveGasPrice: tx.Receipt.EffectiveGasPrice,
+		ContractAddress:   cloneBytes(tx.Receipt.ContractAddress),
+	}
+	if tx.Receipt.Logs != nil {
+		dst.Receipt.Logs = make(Logs, len(tx.Receipt.Logs))
+		for i, l := range tx.Receipt.Logs {
+			dst.Receipt.Logs[i] = Log{
+				Idx:     l.Idx,
+				Address: cloneBytes(l.Address),
+				Data:    cloneBytes(l.Data),
+			}
+			if l.Topics != nil {
+				dst.Receipt.Logs[i].Topics = make([]Bytes, len(l.Topics))
+				for k := range l.Topics {
+					dst.Receipt.Logs[i].Topics[k] = cloneBytes(l.Topics[k])
+				}
+			}
+		}
+	}
+	dst.Idx = tx.Idx
+	dst.Type = tx.Type
+	dst.ChainID = tx.ChainID
+	dst.Nonce = tx.Nonce
+	dst.GasPrice = tx.GasPrice
+	dst.GasLimit = tx.GasLimit
+	dst.From = cloneBytes(tx.From)
+	dst.To = cloneBytes(tx.To)
+	dst.Value = tx.Value
+	dst.Data = cloneBytes(tx.Data)
+	dst.V, dst.R, dst.S = tx.V, tx.R, tx.S
+	if tx.TraceActions != nil {
+		dst.TraceActions = make([]TraceAction, len(tx.TraceActions))
+		for i, ta := range tx.TraceActions {
+			dst.TraceActions[i] = TraceAction{
+				Idx:      ta.Idx,
+				From:     cloneBytes(ta.From),
+				CallType: ta.CallType,
+				To:       cloneBytes(ta.To),
+				Value:    ta.Value,
+			}
+		}
+	}
+	if tx.AccessList != nil {
+		dst.AccessList = make(AccessTuples, len(tx.AccessList))
+		for i, at := range tx.AccessList {
+			dst.AccessList[i].Address = at.Address
+			dst.AccessList[i].StorageKeys = append([][32]byte(nil), at.StorageKeys...)
+		}
+	}
+	dst.MaxPriorityFeePerGas = tx.MaxPriorityFeePerGas
+	dst.MaxFeePerGas = tx.MaxFeePerGas
+	dst.PrecompHash = cloneBytes(tx.PrecompHash)
+	dst.rbuf = append([]byte(nil), tx.rbuf...)
+	dst.signer = append([]byte(nil), tx.signer...)
+}
+
 func (b *Block) SetNum(n uint64) { b.Header.Number = Uint64(n) }
 func (b Block) Num() uint64      { return uint64(b.Header.Number) }
 func (b Block) Hash() []byte     { return b.Header.Hash }
